@@ -343,6 +343,19 @@ Fixpoint inval_loop (np : nat) (c : pcache) (fid page : N) : pcache :=
 Definition pc_invalidate_range (c : pcache) (fid off len : N) : pcache :=
   let '(sp, np) := page_span (psize c) off len in inval_loop np c fid sp.
 
+(* the file of id fid is rewritten in place (same size) in [off, off+|data|), then the range is invalidated
+   explicitly: what the property calls "after an explicit invalidation" *)
+Definition overwrite (f : list N) (off : N) (data : list N) : list N :=
+  firstn (N.to_nat off) f ++ data ++ skipn (N.to_nat off + length data) f.
+Definition with_files (c : pcache) (fs : N -> option (list N)) : pcache :=
+  mkPc (psize c) (pcap c) fs (inner c) (inval c) (atimes c) (clock c).
+Definition fs_overwrite (fs : N -> option (list N)) (fid off : N) (data : list N) : N -> option (list N) :=
+  fun g => if g =? fid
+           then match fs g with Some f => Some (overwrite f off data) | None => None end
+           else fs g.
+Definition pc_overwrite (c : pcache) (fid off : N) (data : list N) : pcache :=
+  pc_invalidate_range (with_files c (fs_overwrite (files c) fid off data)) fid off (nlen data).
+
 (* every cached page holds what the file holds *)
 Definition coherent (c : pcache) : Prop :=
   forall k pg, plookup k (inner c) = Some pg ->
@@ -350,7 +363,8 @@ Definition coherent (c : pcache) : Prop :=
 
 Inductive pop : Type :=
 | PRead (fid off len : N) | PPrefetch (fid off len : N)
-| PInvPage (fid page : N) | PInvRange (fid off len : N).
+| PInvPage (fid page : N) | PInvRange (fid off len : N)
+| POverwrite (fid off : N) (data : list N).
 
 Definition pc_step (c : pcache) (o : pop) : pcache * list N :=
   match o with
@@ -358,6 +372,7 @@ Definition pc_step (c : pcache) (o : pop) : pcache * list N :=
   | PPrefetch f off len => (pc_prefetch c f off len, [])
   | PInvPage f p => (pc_invalidate_page c (f, p), [])
   | PInvRange f off len => (pc_invalidate_range c f off len, [])
+  | POverwrite f off data => (pc_overwrite c f off data, [])
   end.
 Fixpoint pc_run (c : pcache) (ops : list pop) : pcache * list (list N) :=
   match ops with
@@ -424,6 +439,24 @@ Definition dec_pop (t : N * N * N * N) : pop :=
   if c =? 0 then PRead f a b else if c =? 1 then PPrefetch f a b
   else if c =? 2 then PInvPage f a else PInvRange f a b.
 
+(* the harness rewrites byte i of the range to 3*x + i + 101 (mod 256) *)
+Fixpoint ow_bytes (old : list N) (i : N) : list N :=
+  match old with [] => [] | x :: t => N.land (x * 3 + i + 101) 255 :: ow_bytes t (i + 1) end.
+Definition pc_step_h (c : pcache) (t : N * N * N * N) : pcache * list N :=
+  let '(code, f, a, b) := t in
+  if code =? 4 then
+    match files c f with
+    | Some fl => pc_step c (POverwrite f a (ow_bytes (firstn (N.to_nat b) (skipn (N.to_nat a) fl)) 0))
+    | None => (c, [])
+    end
+  else pc_step c (dec_pop t).
+Fixpoint pc_run_h (c : pcache) (ops : list (N * N * N * N)) : pcache * list (list N) :=
+  match ops with
+  | [] => (c, [])
+  | o :: t => let '(c1, r) := pc_step_h c o in
+              let '(c2, rs) := pc_run_h c1 t in (c2, r :: rs)
+  end.
+
 (* digest of a read result: length, position-weighted sum (weights cycle 1..251), first and last 8 bytes *)
 Fixpoint wsum (l : list N) (w acc : N) : N :=
   match l with [] => acc | b :: t => wsum t (if w =? 251 then 1 else w + 1) (acc + w * b) end.
@@ -432,4 +465,4 @@ Definition digest (l : list N) : list N :=
 
 Definition pc_case (ps capbytes : N) (fs : list (N * (N * N))) (ops : list (N * N * N * N)) : list (list N) :=
   let fl := map (fun t => (fst t, gen_file (fst (snd t)) (snd (snd t)))) fs in
-  map digest (snd (pc_run (pc_new ps capbytes (files_of fl)) (map dec_pop ops))).
+  map digest (snd (pc_run_h (pc_new ps capbytes (files_of fl)) ops)).
